@@ -508,8 +508,15 @@ impl<'a> Gen<'a> {
                     let n = self.id();
                     (Val::Lit(format!("ap{n}")), Shape::Str)
                 } else {
-                    let v = self.rng.pick(&self.scope).clone();
-                    (Val::Var(v.name), v.shape)
+                    // a canon map without a lens is not an ap argument
+                    let cands: Vec<VarInfo> = self.scope.iter().filter(|v| v.shape != Shape::CanonMap).cloned().collect();
+                    if cands.is_empty() {
+                        let n = self.id();
+                        (Val::Lit(format!("ap{n}")), Shape::Str)
+                    } else {
+                        let v = self.rng.pick(&cands).clone();
+                        (Val::Var(v.name), v.shape)
+                    }
                 };
                 let s = self.pick_or_new_stream(&shape);
                 Ins::Ap { arg, out: Out::Stream(s) }
